@@ -19,6 +19,35 @@ use std::collections::{BTreeMap, HashSet};
 static GLOBAL: mem::Counting = mem::Counting;
 use std::io::{BufRead, Write};
 
+/// Watchdog: a case (implementation run + oracle) that does not come back within the limit is a hang of the
+/// implementation (or of the oracle's re-run of it). The process reports it and exits with status 97; `bin/check`
+/// takes the last line of the (flushed) ops file as the failing input.
+mod watchdog {
+    use std::sync::atomic::{AtomicU64, Ordering::Relaxed};
+    use std::sync::Mutex;
+    static START_MS: AtomicU64 = AtomicU64::new(0);
+    static SERIAL: AtomicU64 = AtomicU64::new(0);
+    static ABORT_FILE: Mutex<Option<String>> = Mutex::new(None);
+    fn now_ms() -> u64 {
+        std::time::SystemTime::now().duration_since(std::time::UNIX_EPOCH).map(|d| d.as_millis() as u64).unwrap_or(1)
+    }
+    pub fn begin() { SERIAL.fetch_add(1, Relaxed); START_MS.store(now_ms().max(1), Relaxed); }
+    pub fn end() { START_MS.store(0, Relaxed); }
+    pub fn spawn(limit_s: u64, abort_file: Option<String>) {
+        *ABORT_FILE.lock().unwrap() = abort_file;
+        std::thread::spawn(move || loop {
+            std::thread::sleep(std::time::Duration::from_millis(200));
+            let s = START_MS.load(Relaxed);
+            if s != 0 && now_ms().saturating_sub(s) > limit_s * 1000 {
+                let msg = format!("hang: the case did not return within {limit_s} s (case #{})", SERIAL.load(Relaxed));
+                eprintln!("ORACLE {msg}");
+                if let Some(p) = ABORT_FILE.lock().unwrap().as_ref() { let _ = std::fs::write(p, &msg); }
+                std::process::exit(97);
+            }
+        });
+    }
+}
+
 fn main() {
     if std::env::var("ZVH_DEBUG").is_err() {
         std::panic::set_hook(Box::new(|_| {}));
@@ -54,19 +83,25 @@ fn main() {
             _ => { i += 1; }
         }
     }
+    let limit_s: u64 = std::env::var("VERIF_CASE_TIMEOUT_S").ok().and_then(|v| v.parse().ok())
+        .unwrap_or(if tier == "thorough" { 900 } else { 60 });
     match args[1].as_str() {
         "run" => {
+            watchdog::spawn(limit_s, None);
             let stdin = std::io::stdin();
             let stdout = std::io::stdout();
             let mut o = stdout.lock();
             for line in stdin.lock().lines() {
                 let line = line.unwrap();
                 if line.trim().is_empty() { continue; }
+                watchdog::begin();
                 let resp = st.run(&line);
                 writeln!(o, "{resp}").unwrap();
+                o.flush().unwrap();
                 for f in st.oracle(&line, &resp) {
                     eprintln!("ORACLE {}", f.what);
                 }
+                watchdog::end();
             }
         }
         "gen" => {
@@ -92,9 +127,16 @@ fn main() {
             let mut classes: BTreeMap<String, u64> = BTreeMap::new();
             let mut failures: Vec<(usize, String, String, String)> = vec![];
             let mut fail_kinds: BTreeMap<String, u32> = BTreeMap::new();
+            let _ = std::fs::remove_file(format!("{out}/{name}.abort"));
+            let _ = std::fs::remove_file(format!("{out}/{name}.meta.json"));
+            watchdog::spawn(limit_s, Some(format!("{out}/{name}.abort")));
             for (idx, line) in ops.iter().enumerate() {
-                let resp = st.run(line);
+                // the request is on disk before the implementation sees it: if the process dies on it (abort,
+                // allocation failure, stack overflow, watchdog), the last line of the ops file is the culprit
                 writeln!(fo, "{line}").unwrap();
+                fo.flush().unwrap();
+                watchdog::begin();
+                let resp = st.run(line);
                 writeln!(fi, "{resp}").unwrap();
                 let mut h: u64 = 0xcbf29ce484222325;
                 for b in line.bytes() { h ^= b as u64; h = h.wrapping_mul(0x100000001b3); }
@@ -110,6 +152,7 @@ fn main() {
                     *n += 1;
                     if *n <= 50 && failures.len() < 600 { failures.push((idx, line.clone(), resp.clone(), f.what)); }
                 }
+                watchdog::end();
             }
             fo.flush().unwrap();
             fi.flush().unwrap();
